@@ -99,7 +99,7 @@ func (u *Unit) callEffect(fr *Frame, c *ssa.CallCommon) effect {
 			return effNone
 		}
 		for _, f := range ct.Frame {
-			if strings.Contains(f, "[") || strings.HasPrefix(f, "~") || strings.HasPrefix(f, "*") || (strings.HasPrefix(f, "@")) {
+			if strings.Contains(f, "[") || strings.HasPrefix(f, "~") || (strings.HasPrefix(f, "*") && !strings.HasPrefix(f, "*.")) || (strings.HasPrefix(f, "@")) {
 				return effAll
 			}
 		}
@@ -778,8 +778,8 @@ func (u *Unit) applyContract(fr *Frame, ct *Contract, name string, c *ssa.CallCo
 				allocates = true
 				continue
 			}
-			if strings.HasPrefix(f, "*") {
-				// *param: the cell a pointer argument designates
+			if strings.HasPrefix(f, "*") && !strings.HasPrefix(f, "*.") {
+				// *param: the cell a pointer argument designates ("*.ghost" is a wildcard ghost field, below)
 				pn := strings.TrimSpace(f[1:])
 				for i, p := range params {
 					if p == pn && i < len(args) {
